@@ -128,8 +128,15 @@ static void run(const Case &c, Ctx &ctx) {
     if (j.fmt == XML_DESCEND && j.variant != 0 && j.depth > 1000) j.depth = 1000;
     uint64_t n = j.depth;
     switch (j.fmt) {
-    case JSON_ARR: j.doc = rep("[", n) + "1" + rep("]", j.variant == 1 ? n - 1 : n); break;
-    case JSON_OBJ: j.doc = rep("{\"a\":", n) + "1" + rep("}", j.variant == 1 ? n / 2 : n); break;
+    // variants 2 and 3: every level has siblings in front of the nested value (an empty container, a scalar), so that a
+    // depth counter that is not restored when a sibling closes shows (the nesting limit must hold for these shapes too)
+    case JSON_ARR:
+        j.doc = rep(j.variant == 2 ? "[[]," : j.variant == 3 ? "[{},\"x\",[1]," : "[", n) + "1" + rep("]", j.variant == 1 ? n - 1 : n);
+        break;
+    case JSON_OBJ:
+        j.doc = rep(j.variant == 2 ? "{\"s\":[],\"a\":" : j.variant == 3 ? "{\"s\":{},\"t\":[0],\"a\":" : "{\"a\":", n) + "1" +
+                rep("}", j.variant == 1 ? n / 2 : n);
+        break;
     case XML_DESCEND:
     case XML_SKIP:
     case XML_BODY: j.doc = rep("<a>", n) + "x" + rep("</a>", j.variant == 1 ? n - 1 : n); break;
@@ -150,6 +157,7 @@ static void run(const Case &c, Ctx &ctx) {
     if (j.fmt == JSON_ARR || j.fmt == JSON_OBJ) PBT_CHECK(j.accepted == (n < 1000 && j.variant != 1) || n == 1000, "JSON depth %llu variant %llu accepted=%d", (unsigned long long)n, (unsigned long long)j.variant, j.accepted);
     if (j.fmt == XML_DESCEND && j.variant == 0) PBT_CHECK(!j.accepted, "XML depth %llu accepted with the default depth limit", (unsigned long long)n);
     ctx.tag(fmt("fmt%d", j.fmt));
+    if ((j.fmt == JSON_ARR || j.fmt == JSON_OBJ) && j.variant >= 2) ctx.tag("json_nesting_with_siblings");
     ctx.nontrivial = n >= 1000;
 }
 
